@@ -55,6 +55,11 @@ CHECKS = {
          "The real quinn crate (Endpoint, Connecting, Connection, streams, datagrams, EndpointDriver, ConnectionDriver) runs over a harness Runtime (virtual clock, timer table), an in-memory AsyncUdpSocket pair and model TLS on a single-threaded executor whose choice at every step (which ready task, or starve tasks and deliver a datagram / fire a timer) is enumerated with <=k deviations; every cancel-safe await site is cancelled after every n polls and retried; every handle is dropped at every point; send back-pressure injected at every poll_send. Oracles: at quiescence every application task is done (no lost wakeup), data integrity, drivers terminate and bookkeeping is released, no panic, no stale waker registration, documented drop semantics.",
          "Interleaving is at poll granularity on one thread (races inside one poll are out of reach); FIFO loss-free network; tokio primitives used as-is.",
          "DESIGN.md#c18"),
+ "C11": ("E3+E2", "model_checking",
+         "exhaustive operation-sequence enumeration on a real connection pair compared step by step with a reference model of the stream halves; deviation-bounded exploration for event discipline",
+         "Every operation sequence up to the depth bound over open/write/finish/reset/stopped/set_priority (sender), accept/read/read-to-end/stop/received_reset (receiver), the reverse-direction operations of bidirectional streams and two network operations that flush one direction each (so acknowledgements and STOP_SENDING can be withheld), for both initiators and both stream directions, is executed on a real established pair; after every operation the return value, the set of StreamEvents and remote_open_streams() must equal the reference model's. A second part explores <=k fate deviations (incl. a delay beyond the PTO) over workloads with resets, stops, empty streams and a long stopped transfer and checks Finished at most once and only after all data and the FIN reached the peer, Stopped at most once.",
+         "Loss is absent from the sequence part (C01/C02 own it); where the property leaves an answer open (write/finish on a half both finished and stopped) either is accepted; Readable events must never be spurious but need not be exact.",
+         "DESIGN.md#c11"),
  "C12": ("E2+E3+E1", "fault_enumeration",
          "deviation-bounded stateless exploration of real endpoints with a harness-dictated congestion window and a wire-level gate oracle; explicit-state search of the built-in controllers",
          "With a harness congestion controller dictating the window (2, 3, 10 datagrams, huge) and with Cubic / NewReno / BBR, incl. ECN-CE marks, Retry, rebinding, migration and key update, every execution with <=k fate deviations is run; each emitted datagram is classified by the independent decoder and an ack-eliciting datagram must not leave when bytes in flight (probe value read before the poll_transmit call plus earlier datagrams of the batch) plus its size reach the window, except owed loss probes, one MTU probe, path-validation packets and CONNECTION_CLOSE. After completion on a quiet network bytes in flight must be 0; fault-free runs over latency x controller x ack-frequency x workload must declare no packet lost. Controller minimum-window search (E1) is merged from /verif/comp.",
